@@ -16,5 +16,5 @@ SPECS = {
     "C16": props_observable.C16,
 }
 # specs that can be run (./check) but are not claimed in MANIFEST.json yet
-IN_PROGRESS = {"C05", "C10", "C16"}
+IN_PROGRESS = set()
 NOT_CLAIMED = {}
